@@ -17,3 +17,10 @@ func setLinger0(c net.Conn) {
 		tc.SetLinger(0)
 	}
 }
+
+func minInt(a, b int) int {
+	if a < b {
+		return a
+	}
+	return b
+}
